@@ -1,6 +1,7 @@
 package client
 
 import (
+	"github.com/plgd-dev/go-coap/v3/udp/coder"
 	"context"
 	"bytes"
 	"time"
@@ -159,6 +160,60 @@ func zzC12_release_race() {
 	x, y := cc.AcquireMessage(cc.Context()), cc.AcquireMessage(cc.Context())
 	symAssert(x != y, "the pool never hands one message to two owners")
 	symCover("raced")
+}
+
+// a notification inside an observation callback is the application's until the callback returns: not recycled,
+// content unchanged while other traffic is processed; afterwards the library takes it back exactly once
+func zzC12_notification() {
+	symGhost(true)
+	s := zzNewSession()
+	cc := zzNewConn(s, zzConnCfg{midSeed: 1000, nstart: 2, maxRetrans: 2, ackTimeout: 1 << 30, poolSize: 1024})
+	symSetNow(time.Unix(0, 1<<41))
+	tokO := message.Token{0x0B, 0x5E}
+	tag := symU8("tag")
+	var seen []*pool.Message
+	inCallback := 0
+	odone := false
+	go func() {
+		req := pool.NewMessage(context.Background())
+		req.SetCode(codes.GET)
+		req.SetToken(tokO)
+		_ = req.SetPath("/obs")
+		req.SetObserve(0)
+		_, _ = cc.DoObserve(req, func(n *pool.Message) {
+			inCallback++
+			symAssert(!symReleased(n), "a notification is owned by the callback while it runs")
+			b, _ := n.ReadBody()
+			// other traffic is handled while the callback still holds the notification
+			other := cc.AcquireMessage(cc.Context())
+			other.SetCode(codes.NotFound)
+			other.SetToken(message.Token{0xEE})
+			cc.ReleaseMessage(other)
+			b2, _ := n.ReadBody()
+			symAssert(!symReleased(n) && bytes.Equal(b, b2) && bytes.Equal(n.Token(), tokO), "and its content stays unchanged until the callback returns")
+			seen = append(seen, n)
+		})
+		odone = true
+	}()
+	zzWaitWritten(s, 1)
+	reg := zzRequest(message.Acknowledgement, s.written[0].mid, codes.Content, tokO, []byte{tag})
+	reg.SetObserve(5)
+	d, _ := reg.MarshalWithEncoder(coder.DefaultCoder)
+	_ = cc.Process(nil, append([]byte(nil), d...))
+	symWaitUntil(func() bool { return odone })
+	n2 := zzRequest(message.NonConfirmable, 30001, codes.Content, tokO, []byte{tag + 1})
+	n2.SetObserve(6)
+	d2, _ := n2.MarshalWithEncoder(coder.DefaultCoder)
+	_ = cc.Process(nil, append([]byte(nil), d2...))
+	symIdle()
+	symAssert(inCallback == 2 && len(seen) == 2, "both notifications reach the callback")
+	symCover("notified")
+	for _, n := range seen {
+		symAssert(symReleased(n), "after the callback returned the library has taken the notification back")
+	}
+	// whatever is acquired next is owned exclusively
+	x, y := cc.AcquireMessage(cc.Context()), cc.AcquireMessage(cc.Context())
+	symAssert(x != y, "the pool never hands one message to two owners")
 }
 
 // response writer: SetMessage releases the replaced message, Swap does not
